@@ -3,16 +3,23 @@
    Symbolic cryptography (DESIGN §1.3): validity flags of delivered bytes are inputs; Section Symbolic of the model gives
    the free term algebra in which the mutation theorem is stated.
 
-   NOT PROVED (kept visible): the composition
-     forall sc, <inputs of sc well formed> -> spec_C02 (model_scenario sc) = true
-   i.e. that the executable predicate applied to the MODEL's own outputs always holds.  Its ingredients are the theorems
-   below (accept_sound + closest_sound => every newly attached change satisfies auth_ok; reject_noop => the rejected
-   clause); the remaining work is list bookkeeping of spec_dels (the running `known` list, set comparisons).  It is
-   checked by vm_compute on a concrete scenario (c02_model_satisfies_spec_example) and, for the implementation's
-   outputs, on every case of every run. *)
+   The model satisfies the executable specification (c02_model_satisfies_spec, Proofs/TreeAuthSpec.v):
+     forall sc, scenario_wf sc = true -> spec_C02 (model_scenario sc) = true
+   where scenario_wf is a decidable condition on the scenario's INPUTS only: the ACL log is accepted by the validating
+   state machine, ACL record ids are distinct, and inside every batch two elements delivered under the same id whose
+   bytes both hash to that id are the same element (CID flags consistent with a collision-free hash; without it the
+   statement is false, c02_inconsistent_flags_refuted).  The unconditional statement `forall sc, spec_C02
+   (model_scenario sc) = true` is false for the trivial reason that spec_C02 answers false on an invalid ACL log.
+
+   FINDING while proving it: with the FIRST version of spec_dels the statement was false of the model (and of the
+   code): `fresh` also counted an id that is on disk, stays on disk, and is not reachable by the iteration (an orphan:
+   a non-root change with empty TreeHeadIds, which Tree.canAttachOrRemove attaches), demanding that it be announced
+   again by every later successful call.  The predicate was wrong, not the model; Model/TreeAuth.v now uses
+   [fresh_ids] (new in memory, or in memory and not on disk before, or new on disk), the old one is kept as
+   [fresh_ids_legacy] with the witness c02_spec_legacy_orphan_refuted. *)
 From Coq Require Import List NArith Bool Arith.
 Import ListNotations.
-From AnySync Require Import Model.TreeAuth Proofs.TreeAuth Proofs.TreeAuthAcl Proofs.TreeAuthMain.
+From AnySync Require Import Model.TreeAuth Proofs.TreeAuth Proofs.TreeAuthAcl Proofs.TreeAuthMain Proofs.TreeAuthSpec.
 Open Scope N_scope.
 
 (* (1) every change attached by a successful AddRawChanges that was not attached before: came with the batch, is
@@ -99,6 +106,29 @@ Theorem c02_wf_accept : forall a t batch t' r, wf t -> accept a t batch = (t', r
 Proof. exact accept_wf. Qed.
 Print Assumptions c02_wf_accept.
 
+(* (5) the model satisfies the executable specification: for every scenario whose inputs are well formed (decidable:
+   ACL log accepted by the validating machine, distinct record ids, CID flags of every batch consistent), spec_C02
+   holds of what the model produces -- every successful call announces exactly what is new in memory / on disk, all of
+   it came with the batch and every delivered copy of it is authentic and authorised against the TRUTH (the ACL state
+   folded up to the cited record), nothing disappears, and every rejected call leaves heads, iteration, storage as
+   they were.  Uses: the iteration presents exactly the set reachable from the root through the Next lists
+   (iter_seq_reach; the fuel always suffices), accept_sound, closest_sound, reject_noop, the invariant wf2. *)
+Theorem c02_model_satisfies_spec : forall sc, scenario_wf sc = true -> spec_C02 (model_scenario sc) = true.
+Proof. exact model_satisfies_spec. Qed.
+Print Assumptions c02_model_satisfies_spec.
+
+(* what IterateRoot presents, as a set: the ids reachable from the root through the Next lists *)
+Theorem c02_iter_is_reachable_set : forall t, wf2 t ->
+  forall x, In x (iter_seq t) <-> reach (nlookup (at_next t)) (at_root t) x.
+Proof. exact iter_seq_reach. Qed.
+Print Assumptions c02_iter_is_reachable_set.
+Theorem c02_wf2_build : forall a root derived t, build a root derived = Some t -> wf2 t.
+Proof. exact build_wf2. Qed.
+Print Assumptions c02_wf2_build.
+Theorem c02_wf2_accept : forall a t batch t' r, wf2 t -> accept a t batch = (t', r) -> wf2 t'.
+Proof. exact accept_wf2. Qed.
+Print Assumptions c02_wf2_accept.
+
 (* the code before fixes/C02-canonical-rawchange.patch: a padded copy of an honest change (same payload and signature,
    id recomputed) passes Unmarshall(verify) although it is a different delivered object; the repaired check refuses it *)
 Theorem c02_legacy_padding_refuted : forall t num num' p pad,
@@ -146,6 +176,38 @@ Proof. vm_compute. reflexivity. Qed.
 
 Example c02_model_satisfies_spec_example : spec_C02 (model_scenario ex_scen) = true.
 Proof. vm_compute. reflexivity. Qed.
+
+(* the hypothesis of c02_model_satisfies_spec is satisfiable by that scenario *)
+Example c02_scenario_wf_nonvacuous : scenario_wf ex_scen = true.
+Proof. vm_compute. reflexivity. Qed.
+
+(* an orphan (non-root change with no parents, authentic and authorised) is attached and stored, never iterated; a
+   later successful call need not announce it again.  The first version of the predicate demanded that. *)
+Definition ex_orphan_scen : scenario :=
+  mkScen 999 1 1 ex_recs [] ex_root false 6%nat true [] [] []
+         (map (fun nb => mkDel (fst nb) (snd nb) false 0 [] [] [] [] [])
+              [ (6%nat, [ch 101 [] 2 2]); (6%nat, [ch 102 [100] 2 2]) ]).
+Example c02_orphan_scenario :
+  scenario_wf ex_orphan_scen = true /\
+  (map (fun d => (d_added d, d_iter d, d_stored d)) (sc_dels (model_scenario ex_orphan_scen)) =
+     [([101], [100], [101; 100]); ([102], [100; 102], [102; 101; 100])]) /\
+  spec_C02 (model_scenario ex_orphan_scen) = true.
+Proof. vm_compute. repeat split; reflexivity. Qed.
+Example c02_spec_legacy_orphan_refuted :
+  exists d0 d1, (sc_dels (model_scenario ex_orphan_scen) = [d0; d1]) /\
+    subset_N (fresh_ids_legacy (d_iter d0) (d_stored d0) (d_iter d1) (d_stored d1)) (d_added d1) = false /\
+    subset_N (fresh_ids (d_iter d0) (d_stored d0) (d_iter d1) (d_stored d1)) (d_added d1) = true.
+Proof. eexists. eexists. vm_compute. repeat split; reflexivity. Qed.
+
+(* the consistency hypothesis is needed: two different elements under one id, both flagged "bytes hash to the id"
+   (impossible for a collision-free hash): the code and the model validate the first and skip the second, the
+   predicate demands authorisation of every delivered copy *)
+Definition ex_inconsistent_scen : scenario :=
+  mkScen 999 1 1 ex_recs [] ex_root false 6%nat true [] [] []
+         [mkDel 6%nat [ch 101 [100] 2 2; ch 101 [100] 2 7] false 0 [] [] [] [] []].
+Example c02_inconsistent_flags_refuted :
+  scenario_wf ex_inconsistent_scen = false /\ spec_C02 (model_scenario ex_inconsistent_scen) = false.
+Proof. vm_compute. split; reflexivity. Qed.
 
 (* the hypotheses of c02_closest_sound / c02_accepted_author_could_write are satisfiable, and the answer really is
    below the truth after a re-add: account 6 was a writer at record 2 (truth), closest answers None *)
